@@ -56,9 +56,16 @@ impl Command for CommandImpl {
             if start > end {
                 CommandResult::Error("Invalid arguments provided, range start value cannot be bigger than the range end value.".to_string())
             } else {
-                let array: Vec<_> = (start..end)
-                    .map(|value| StateValue::Number64Bit(value))
-                    .collect();
+                // an interval that cannot be held in memory is an error, not a panic (capacity overflow)
+                let size = match usize::try_from(end as i128 - start as i128) {
+                    Ok(size) => size,
+                    Err(_) => return CommandResult::Error("Range too large.".to_string()),
+                };
+                let mut array: Vec<StateValue> = Vec::new();
+                if array.try_reserve_exact(size).is_err() {
+                    return CommandResult::Error("Range too large.".to_string());
+                }
+                array.extend((start..end).map(|value| StateValue::Number64Bit(value)));
 
                 let key = put_handle(context.state, StateValue::List(array));
 
